@@ -477,8 +477,30 @@ def correspond(cases, hp, mp, detail=False, fuel=0, loader="run_checks"):
         res["ast"] = r["ast"]["ok"]
         res["doc"] = r["doc"]["ok"]
         res["verdict"] = compare_obs(impl, model)
+        if res["verdict"].startswith("disagree") and env_open(c["rules"]):
+            # the Env tables hold the oracles' answers for the strings of the rules file and the document; a
+            # function applied to the RESULT of another function (or a regex matched against one) asks about a
+            # string that only exists at run time, which the tables cannot contain
+            res["verdict"] = "skipped-envmiss"
         out.append(res)
     return out
+
+
+FUNC_NAMES = ("count", "to_upper", "to_lower", "parse_int", "parse_string", "parse_boolean", "parse_float", "parse_char",
+              "json_parse", "url_decode", "join", "substring", "regex_replace", "parse_epoch", "now")
+STRING_FUNCS = ("to_upper", "to_lower", "parse_string", "json_parse", "url_decode", "join", "substring", "regex_replace", "parse_char")
+
+
+def env_open(rules):
+    """can the evaluation ask an oracle (regex, case mapping, float / JSON / epoch parsing, URL decoding) about a string
+    that is computed at run time?  Conservatively: a string-producing function occurs AND its result can reach another
+    oracle - another function call takes a variable or a call as argument, or the file contains a regex literal."""
+    import re
+    if not re.search(r"\b(%s)\s*\(" % "|".join(STRING_FUNCS), rules):
+        return False
+    nested = re.search(r"\b(%s)\s*\([^()]*(%%\w+|\b(%s)\s*\()" % ("|".join(FUNC_NAMES), "|".join(FUNC_NAMES)), rules)
+    has_regex = re.search(r"(==|!=|in|IN|\[|,)\s*/[^/\n]+/", rules) is not None
+    return bool(nested) or has_regex
 
 
 def compare_obs(impl, model):
